@@ -145,7 +145,7 @@ var capConfigs = []capConfig{
 	{"caps-unknown", "* PREAUTH ready\r\n", false, false, false, false},
 }
 
-var S = []string{"", "a", "a b", "a\"b", "a\\b", "a\r\nb", "a\x00b", "é", "\xff", "{3}", "(", "%*", "a&b", "&", "NIL", "inbox", strings.Repeat("a", 4096), strings.Repeat("a", 4097), strings.Repeat("é", 2049)}
+var S = []string{"", "a", "a b", "a\"b", "a\\b", "a\r\nb", "a\nb", "a\rb", "a\x00b", "é", "\xff", "{3}", "(", "%*", "a&b", "&", "NIL", "inbox", strings.Repeat("a", 4096), strings.Repeat("a", 4097), strings.Repeat("é", 2049)}
 
 type cmdDef struct {
 	name  string
@@ -615,7 +615,7 @@ func main() {
 	run.Set("delay_bound", int64(dbound))
 	run.Set("preemption_bound", int64(pbound))
 	run.Exhaustive = exhaustive
-	run.Rule = "legality: (capability configuration in {rev1, LITERAL-, LITERAL+, IMAP4rev2, UTF8=ACCEPT advertised, capabilities unknown}) x (nothing / UTF8=ACCEPT / IMAP4rev2 enabled where offered) x 13 commands x every member of a 19-string alphabet (NUL, CR LF, quote, backslash, 8-bit valid and invalid UTF-8, literal-looking text, lengths 4096/4097) in every string position and all pairs, plus APPEND sizes {0,1,4096,4097,70000}; the bytes the real client writes are judged by an independent scanner. synchronisation: 16 scenarios (LOGIN user/password/both literals, APPEND, SEARCH, two threads with literals; server grants, or refuses with NO/BAD) x all schedules within delay bound and preemption bound; connection write hooks flag bytes written while a continuation is awaited and payload bytes after a refusal"
+	run.Rule = "legality: (capability configuration in {rev1, LITERAL-, LITERAL+, IMAP4rev2, UTF8=ACCEPT advertised, capabilities unknown}) x (nothing / UTF8=ACCEPT / IMAP4rev2 enabled where offered) x 13 commands x every member of a 21-string alphabet (NUL, CR LF, quote, backslash, 8-bit valid and invalid UTF-8, literal-looking text, lengths 4096/4097) in every string position and all pairs, plus APPEND sizes {0,1,4096,4097,70000}; the bytes the real client writes are judged by an independent scanner. synchronisation: 16 scenarios (LOGIN user/password/both literals, APPEND, SEARCH, two threads with literals; server grants, or refuses with NO/BAD) x all schedules within delay bound and preemption bound; connection write hooks flag bytes written while a continuation is awaited and payload bytes after a refusal"
 	run.Assume("legality is judged against what the server ADVERTISED (greeting) and what was ENABLED; CHARSET usage is not judged (the statement does not mention it)")
 	run.Finish()
 }
